@@ -268,7 +268,8 @@ fn run_unit_robust(eng: &dyn Engine, ctx: &Ctx, w: &mut Option<WorkerProc>, unit
                         *w = None;
                         match last {
                             Some((idx, case)) => {
-                                extra.push(Violation { property: eng.property().to_string(), class: d.class(), detail: format!("worker process {} while running case {} of unit {}", d.class(), idx, unit), case });
+                                let brief: String = case.to_string().chars().take(700).collect();
+                                extra.push(Violation { property: eng.property().to_string(), class: d.class(), detail: format!("worker process {} while running case {} of unit {}: {}", d.class(), idx, unit, brief), case });
                                 skip.push(idx);
                             }
                             None => {
@@ -300,7 +301,8 @@ pub fn exec_case(eng: &dyn Engine, ctx: &Ctx, w: &mut Option<WorkerProc>, case: 
         }
         Err(d) => {
             *w = None;
-            Ok(vec![Violation { property: eng.property().to_string(), class: d.class(), detail: format!("worker process {}", d.class()), case: case.clone() }])
+            let brief: String = case.to_string().chars().take(700).collect();
+            Ok(vec![Violation { property: eng.property().to_string(), class: d.class(), detail: format!("worker process {} on case {}", d.class(), brief), case: case.clone() }])
         }
     }
 }
